@@ -213,7 +213,9 @@ def known_class(line, out):
 
 
 def same(line, io, mo):
-    return False
+    """the verdict on a bundle inside the don't-care masks is free"""
+    b = _B.get(line)
+    return b is not None and dont_care(b)
 
 
 def classify(line, out):
